@@ -120,9 +120,22 @@ def aspect(prev, ev, hk):
         return "abort"
     if ev.get("e") == "Probe":
         return "fresh-equivalence" + ("-final" if ev.get("final") else "")
+    if ev.get("e") == "Finish":
+        if ev["p"].get("gb"):
+            return "finish:detached-fixup-without-label-id"
+        if ev.get("cmp") and ev["u"] != ev["f"]:
+            names = ["style", "flatten", "resolve", "relocate/add", "unresolved", "labels", "bound", "fixups", "bad-fixups", "sections", "size", "bytes"]
+            return "finish-differs-from-reference:" + "+".join(n for n, a, b in zip(names, ev["u"], ev["f"]) if a != b)
+        return "finish:other"
     if ev.get("e") != "Call":
         return "other"
     k, r, hc, th, p, q = ev["k"], ev["r"], ev["hc"], ev["th"], prev["p"], ev["p"]
+    if q.get("gb"):
+        return "detached-fixup-without-label-id"
+    if k == "inst" and r == 0 and ev.get("vr") and head_is_validating_x86_builder(prev):
+        return "accepts-virtual-register-id"
+    if k == "finalize" and r == 0 and prev.get("_pend"):
+        return "accepts-what-assembler-refuses:%d" % prev["_pend"]
     if k == "finalize":
         return "finalize-report:%d" % len(hc)
     if r == 0:
@@ -160,12 +173,19 @@ def aspect(prev, ev, hk):
     return "other"
 
 
+def head_is_validating_x86_builder(prev):
+    h = prev.get("_head", {})
+    return h.get("em") == "builder" and h.get("arch") != "a64" and h.get("vi")
+
+
 def classify(x, aborts_by_xi):
     recs = x["records"]
     head = recs[0] if recs and recs[0].get("e") == "Reset" else {}
     i = x["index"]
     ev = recs[i] if i < len(recs) else {"e": "END"}
-    prev = next((recs[j] for j in range(min(i, len(recs)) - 1, -1, -1) if "p" in recs[j]), head)
+    prev = dict(next((recs[j] for j in range(min(i, len(recs)) - 1, -1, -1) if "p" in recs[j]), head))
+    prev["_head"] = head
+    prev["_pend"] = next((r_.get("sh") for r_ in recs[:i] if r_.get("e") == "Call" and r_.get("k") == "inst" and r_.get("r") == 0 and r_.get("sh")), 0)
     asp = aspect(prev, ev, head.get("hk"))
     who = f"{head.get('arch')}/{head.get('em')}"
     if asp == "abort":
@@ -180,6 +200,10 @@ def classify(x, aborts_by_xi):
     if not head.get("att", True):
         emcls += "-detached"
     key = f"{emcls}:{kind}:{asp}"
+    if asp.startswith("accepts-what-assembler-refuses"):
+        key = "builder-" + asp
+        first = next((r_ for r_ in recs[:i] if r_.get("e") == "Call" and r_.get("k") == "inst" and r_.get("r") == 0 and r_.get("sh")), {})
+        ev = dict(ev, **{"in": "finalize Ok after accepted request [" + first.get("in", "")[:200] + "] that a strictly validating Assembler refuses with %s" % first.get("sh")})
     msg = (f"{who} hk={head.get('hk')} call {kind} [{ev.get('in', '')[:220]}] r={ev.get('r')} hc={ev.get('hc')} th={ev.get('th')} "
            f"before={json.dumps(prev.get('p'))[:200]} after={json.dumps(ev.get('p'))[:200]} os={ev.get('os')} -> {asp}")
     return key, msg
@@ -237,6 +261,11 @@ def run(ctx):
                 ctx.distinct.add((arch, sh["em"], rec["k"], rec["r"], len(rec["hc"]), rec["th"]))
             elif rec.get("e") == "Probe":
                 stats[(arch, sh["em"], "probe", "final" if rec.get("final") else "delta")] += 1
+            elif rec.get("e") == "Finish":
+                stats[(arch, sh["em"], "finish", ("style%d" % rec["u"][0]) + ("/cmp" if rec["cmp"] else ""))] += 1
+                ctx.distinct.add((arch, sh["em"], "finish", tuple(rec["u"][:4]), rec["cmp"]))
+            elif rec.get("e") == "Reset" and sh["em"] != "asm":
+                stats[(arch, sh["em"], "diag", ("VI" if rec.get("vi") else "") + ("+VA" if rec.get("va") else "") or "none")] += 1
     ctx.evaluations = nrec
     ctx.log(f"recorded {nrec} events in {len(shards)} shards; sanitizer aborts: {sum(len(s['aborts']) for s in shards)}")
 
@@ -262,7 +291,9 @@ def run(ctx):
     ctx.extra["call_counts"] = {"/".join(map(str, k)): v for k, v in sorted(stats.items())}
     ctx.extra["rejections_by_key"] = {k: len(v) for k, v in found.items()}
     need = [("x86", "asm", "inst", "err"), ("x64", "asm", "inst", "ok"), ("a64", "asm", "inst", "err"), ("x64", "builder", "inst", "err"),
-            ("x64", "asm", "bind", "err"), ("x64", "asm", "elabel", "err"), ("a64", "asm", "probe", "delta")]
+            ("x64", "asm", "bind", "err"), ("x64", "asm", "elabel", "err"), ("a64", "asm", "probe", "delta"),
+            ("x64", "asm", "finish", "style2/cmp"), ("x86", "asm", "finish", "style1"), ("x64", "builder", "finish", "style0/cmp"),
+            ("x64", "builder", "diag", "VI"), ("x64", "builder", "diag", "none"), ("x64", "builder", "diag", "VI+VA"), ("x64", "compiler", "diag", "VI")]
     missing = [n for n in need if not stats.get(n)]
     if missing:
         raise Broken(f"call classes never exercised: {missing}")
@@ -273,6 +304,8 @@ def run(ctx):
         "ASan+UBSan (allocator_may_return_null=1) is the environment: a report ends the process, the ABORT line is not a contract event; the harness resumes with the next execution",
         "Builder/Compiler finalize is its own call with the reporting discipline only (partial output of earlier nodes is by design)",
         "isolated triggers (x86-32 [label] with invalid id; x86-64 [label+disp] with disp near INT32_MIN; 16-bit addressing with disp outside 0..32767; x86 Compiler register operands with a size field > 64; a valid Compiler program with a dead block jumping into live code; AArch64 vector element-type perturbation, element-index perturbation under the Compiler; detached emitters) are generated only in dedicated executions so that one open defect does not end every execution",
+        "every execution ends with a finishing phase on the holder (flatten + resolve_cross_section_fixups [+ relocate_to_base], or JitRuntime::_add + _release); when every refused call left the projection unchanged it is compared with a reference pass of the same seed in which the refused calls are omitted",
+        "Builder: DiagnosticOptions swept over the subsets of {kValidateAssembler, kValidateIntermediate} (x86 without any validation: operand kinds of real forms are kept); Compiler: kValidateIntermediate always on; an x86 Builder with kValidateIntermediate must refuse virtual register ids; an accepted request that a strictly validating shadow Assembler refuses (state-independent error) must not finalize Ok",
         "whether an accepted instruction is CORRECT is C01/C02; here an Ok emit only has to append 1..15 bytes (x86) / 4 bytes (a64) and nothing else",
     ]
     vlib.write_evidence(ctx, "model_checking",
